@@ -13,6 +13,7 @@ import PP.Driver.OpsC07
 import PP.Driver.OpsC19b
 import PP.Driver.OpsCLI
 import PP.Driver.OpsC19c
+import PP.Driver.OpsC19d
 /-
 Request handlers of the model driver.
 -/
@@ -194,6 +195,9 @@ def handle (j : Json) : Except String Json := do
                       | none =>
                         match PP.OpsC19c.handle op j with
                         | some r => r
-                        | none => throw s!"unknown op {op}"
+                        | none =>
+                          match PP.OpsC19d.handle op j with
+                          | some r => r
+                          | none => throw s!"unknown op {op}"
 
 end PP.Ops
